@@ -64,6 +64,13 @@ pub fn set_number_of_allowed_io_operations(val: usize) {
 	IO_COUNTER_BEFORE_ERROR.with(|v| v.store(val, Ordering::Relaxed));
 }
 
+/// Verification hook (H6): the number of file operations still allowed on this thread before the
+/// instrumented failure sets in (so that a caller can suspend the injection around reads).
+#[cfg(all(feature = "instrumentation", parity_db_verif))]
+pub fn verif_remaining_io_operations() -> usize {
+	IO_COUNTER_BEFORE_ERROR.with(|v| v.load(Ordering::Relaxed))
+}
+
 #[cfg(feature = "instrumentation")]
 macro_rules! try_io {
 	($e:expr) => {{
